@@ -59,9 +59,8 @@ class Expr2Mixin:
         """-> (index, field type, through_pointer) or None."""
         through_ptr = False
         u = t.underlying()
-        if isinstance(u, T.Pointer) and not (isinstance(t, T.Named) and False):
-            # automatic dereference (only for *struct, not for named pointer
-            # types' methods - fields are fine)
+        if isinstance(u, T.Pointer):
+            # automatic dereference of a pointer to struct
             su = u.elem.underlying()
             if isinstance(su, T.Struct):
                 through_ptr = True
@@ -396,6 +395,10 @@ class Expr2Mixin:
                 unsupported(e, "[]rune(string) conversion")
         if isinstance(xu, T.Slice) and isinstance(tu, (T.Array, T.Pointer)):
             unsupported(e, "slice to array conversion")
+        if T.identical(xu, tu, ignore_tags=True) or (
+                isinstance(xu, T.Pointer) and isinstance(tu, T.Pointer)
+                and T.identical(xu.elem.underlying(), tu.elem.underlying(), ignore_tags=True)):
+            unsupported(e, "conversion between struct types that differ only in field tags")
         err(e, f"cannot convert value of type {T.type_str(xt)} to type {T.type_str(target)}")
 
     # ------------------------------------------------------------------
